@@ -114,6 +114,15 @@ ApplyRootsProfile(s, c) ==
   IF c.t = "inc-serial" THEN LET sn == MaxOf(s.seen) + 1 IN [st |-> [s1 EXCEPT !.seen = @ \cup {sn}], out |-> [t |-> "serial", serial |-> sn]]
   ELSE LET r == ApplyRoot(s1, c) IN [st |-> r.st, out |-> [t |-> "op", ok |-> r.ok]]
 
+\* vacuity guard on the universe itself: every refusal reason, an "issue" and an "any" decision occur in SignFull
+\* (every member of SignFull is then executed against the real code by the replay)
+Reasons == {"uri-count", "email", "unparsable", "kind", "partition", "trust-domain", "datacenter", "scope"}
+UniverseCovers ==
+  /\ \A w \in Reasons : \E c \in SignFull : LET d == Decide(c.csr, c.authz) IN d.d = "refuse" /\ d.why = w
+  /\ \A k \in {"service", "agent", "mesh-gateway"} : \E c \in SignFull : LET d == Decide(c.csr, c.authz) IN d.d = "issue" /\ d.id.kind = k
+  /\ \E c \in SignFull : Decide(c.csr, c.authz).d = "any"
+ASSUME UniverseCovers
+
 (* ---------------------------------- behaviour -------------------------------------- *)
 Init == st = (IF Profile = "issue" THEN InitIssue ELSE InitRoots) /\ hist = <<>> /\ out = [t |-> "init"]
 Cmds(s) == IF Profile = "issue" THEN CmdsIssue(s) ELSE CmdsRoots(s)
